@@ -155,6 +155,196 @@ theorem sym_wrong_key (k k' : Nat) (n m : Bytes) (h : k' ≠ k) :
     exact h this.symm
   · rfl
 
+/-! ## The symbolic instance rejects every modified honest ciphertext
+
+In the symbolic instance a modified cell is `bad`.  The authenticator's `tag` cell carries the values
+of the nonce and of the message, so a `bad` cell anywhere, a shorter or a longer box cannot open. -/
+
+private theorem none_not_mem_vals (l : Bytes) (hb : ∀ c ∈ l, c.isByte = true) : none ∉ vals l := by
+  intro h
+  unfold vals at h
+  rw [List.mem_map] at h
+  obtain ⟨c, hc, hv⟩ := h
+  have := hb c hc
+  cases c <;> simp [Cell.isByte, Cell.val] at this hv
+
+private theorem none_mem_vals_of_bad (l : Bytes) (h : Cell.bad ∈ l) : none ∈ vals l := by
+  unfold vals
+  exact List.mem_map.2 ⟨.bad, h, rfl⟩
+
+private theorem bad_mem_set (l : Bytes) (p : Nat) (hp : p < l.length) : Cell.bad ∈ l.set p .bad := by
+  rw [List.mem_iff_getElem?]
+  exact ⟨p, by simp [hp]⟩
+
+private theorem symSeal_eq (k : Nat) (n m : Bytes) :
+    symSeal k n m = .tag k (vals n) (vals m) :: (List.replicate 15 (.byte 0) ++ m) := by
+  simp [symSeal, symTag]
+
+private theorem drop16_symSeal (k : Nat) (n m : Bytes) : (symSeal k n m).drop 16 = m := by
+  rw [symSeal_eq]; simp
+
+/-- what opening a box means in the symbolic instance -/
+private theorem symUnseal_some (k : Nat) (n c m : Bytes) (h : symUnseal k n c = some m) :
+    c = .tag k (vals n) (vals m) :: (List.replicate 15 (.byte 0) ++ m) := by
+  have := symAEAD.openBox_sound k n c m h
+  rw [← symSeal_eq]; exact this
+
+/-- a box with a `bad` cell in it does not open under an all-bytes message/nonce history -/
+private theorem sym_box_set_bad (k : Nat) (n m : Bytes) (hm : ∀ c ∈ m, c.isByte = true)
+    (j : Nat) (hj : j < (symSeal k n m).length) :
+    symUnseal k n ((symSeal k n m).set j .bad) = none := by
+  cases h : symUnseal k n ((symSeal k n m).set j .bad) with
+  | none => rfl
+  | some m' =>
+    exfalso
+    have hc := symUnseal_some k n _ m' h
+    have hbad : Cell.bad ∈ (symSeal k n m).set j .bad := bad_mem_set _ j hj
+    cases j with
+    | zero =>
+      rw [symSeal_eq, List.set_cons_zero] at hc
+      injection hc with h1 _
+      cases h1
+    | succ j =>
+      rw [symSeal_eq, List.set_cons_succ] at hc
+      have hc' := hc
+      injection hc with h1 h2
+      injection h1 with _ _ hv
+      -- hv : vals m = vals m'
+      rw [symSeal_eq, List.set_cons_succ, hc'] at hbad
+      simp only [List.mem_cons, List.mem_append, List.mem_replicate] at hbad
+      rcases hbad with hb | ⟨_, hb⟩ | hb
+      · cases hb
+      · cases hb
+      · exact none_not_mem_vals m hm (hv ▸ none_mem_vals_of_bad m' hb)
+
+/-- a shorter box does not open -/
+private theorem sym_box_take (k : Nat) (n m : Bytes) (j : Nat) (hj : j < (symSeal k n m).length) :
+    symUnseal k n ((symSeal k n m).take j) = none := by
+  cases h : symUnseal k n ((symSeal k n m).take j) with
+  | none => rfl
+  | some m' =>
+    exfalso
+    have hc := symUnseal_some k n _ m' h
+    have hl := congrArg List.length hc
+    rw [symSeal_eq] at hc hl hj
+    cases j with
+    | zero => simp at hc
+    | succ j =>
+      rw [List.take_succ_cons] at hc
+      injection hc with h1 h2
+      injection h1 with _ _ hv
+      have hlen : m.length = m'.length := by
+        have := congrArg List.length hv; simpa [vals] using this
+      simp at hl hj
+      omega
+
+/-- a longer box does not open -/
+private theorem sym_box_extend (k : Nat) (n m : Bytes) (e : Nat) (he : e ≠ 0) :
+    symUnseal k n (symSeal k n m ++ List.replicate e (.byte 0)) = none := by
+  cases h : symUnseal k n (symSeal k n m ++ List.replicate e (.byte 0)) with
+  | none => rfl
+  | some m' =>
+    exfalso
+    have hc := symUnseal_some k n _ m' h
+    have hl := congrArg List.length hc
+    rw [symSeal_eq, List.cons_append] at hc
+    injection hc with h1 h2
+    injection h1 with _ _ hv
+    have hlen : m.length = m'.length := by
+      have := congrArg List.length hv; simpa [vals] using this
+    rw [symSeal_eq] at hl
+    simp at hl
+    omega
+
+/-- a `bad` cell in the nonce: the box was sealed for another nonce -/
+private theorem sym_nonce_set_bad (k : Nat) (n m : Bytes) (hn : ∀ c ∈ n, c.isByte = true)
+    (p : Nat) (hp : p < n.length) :
+    symUnseal k (n.set p .bad) (symSeal k n m) = none := by
+  cases h : symUnseal k (n.set p .bad) (symSeal k n m) with
+  | none => rfl
+  | some m' =>
+    exfalso
+    have hc := symUnseal_some k _ _ m' h
+    rw [symSeal_eq] at hc
+    injection hc with h1 _
+    injection h1 with _ hv _
+    exact none_not_mem_vals n hn (hv ▸ none_mem_vals_of_bad _ (bad_mem_set n p hp))
+
+/-- framing: `Decrypt` of a 24-cell nonce followed by a box opens that box under that nonce -/
+theorem decrypt_append (k : K) (n c : Bytes) (hn : n.length = nonceSize) :
+    decrypt A k (n ++ c) = A.openBox k n c := by
+  unfold decrypt
+  have h1 : ¬ (n ++ c).length < nonceSize := by rw [List.length_append, hn]; omega
+  rw [if_neg h1, ← hn, List.take_left, List.drop_left]
+
+private theorem symSeal_length (k : Nat) (n m : Bytes) : (symSeal k n m).length = m.length + 16 :=
+  symAEAD.sealBox_length k n m
+
+/-- **Per-modification verdict in the symbolic instance**: an honest ciphertext (all-byte nonce and
+    plaintext) to which one of the driver's modification classes is applied is rejected when the
+    modification changes it (xor with a non-zero mask anywhere — nonce, authenticator or body —,
+    truncation, extension) and decrypts to the original plaintext when it does not. -/
+theorem mod_verdict (k : Nat) (nonce pt : Bytes) (hn : nonce.length = nonceSize)
+    (hbn : ∀ c ∈ nonce, c.isByte = true) (hbp : ∀ c ∈ pt, c.isByte = true) (m : Mod)
+    (hok : ∀ pos mask, m = .xor pos mask → pos < pt.length + nonceSize + 16) :
+    verdictChar pt (decrypt symAEAD k (applyMod (encrypt symAEAD k nonce pt) m))
+      = if modChanges (pt.length + nonceSize + 16) m then 'r' else 'o' := by
+  have hdec : decrypt symAEAD k (encrypt symAEAD k nonce pt) = some pt :=
+    decrypt_encrypt symAEAD k nonce pt hn
+  have hsame : verdictChar pt (some pt) = 'o' := by simp [verdictChar]
+  have hbox : (symSeal k nonce pt).length = pt.length + 16 := symSeal_length k nonce pt
+  have hct : encrypt symAEAD k nonce pt = nonce ++ symSeal k nonce pt := rfl
+  have hlen : (encrypt symAEAD k nonce pt).length = pt.length + nonceSize + 16 := by
+    rw [hct, List.length_append, hbox, hn]; omega
+  cases m with
+  | xor pos mask =>
+    have hpos := hok pos mask rfl
+    by_cases hm : mask = 0
+    · subst hm
+      simp [applyMod, modChanges, hdec, hsame]
+    · have hmc : modChanges (pt.length + nonceSize + 16) (.xor pos mask) = true := by
+        simp [modChanges, hm]
+      rw [hmc, if_pos rfl]
+      simp only [applyMod, if_neg hm]
+      rw [hct, List.set_append]
+      split
+      · rename_i hlt
+        rw [decrypt_append symAEAD k _ _ (by rw [List.length_set]; exact hn)]
+        show verdictChar pt (symUnseal k (nonce.set pos .bad) (symSeal k nonce pt)) = 'r'
+        rw [sym_nonce_set_bad k nonce pt hbn pos hlt]; rfl
+      · rename_i hge
+        rw [decrypt_append symAEAD k _ _ hn]
+        show verdictChar pt (symUnseal k nonce ((symSeal k nonce pt).set (pos - nonce.length) .bad)) = 'r'
+        rw [sym_box_set_bad k nonce pt hbp _ (by rw [hbox, hn]; omega)]; rfl
+  | trunc n =>
+    by_cases hlt : n < pt.length + nonceSize + 16
+    · have hmc : modChanges (pt.length + nonceSize + 16) (.trunc n) = true := by
+        simp [modChanges, hlt]
+      rw [hmc, if_pos rfl]
+      simp only [applyMod]
+      by_cases hs : n < nonceSize
+      · rw [decrypt_short symAEAD k _ (by rw [List.length_take, hlen]; omega)]; rfl
+      · rw [hct, List.take_append, List.take_of_length_le (by rw [hn]; omega),
+          decrypt_append symAEAD k _ _ hn]
+        show verdictChar pt (symUnseal k nonce ((symSeal k nonce pt).take (n - nonce.length))) = 'r'
+        rw [sym_box_take k nonce pt _ (by rw [hbox, hn]; omega)]; rfl
+    · have hmc : modChanges (pt.length + nonceSize + 16) (.trunc n) = false := by
+        simp [modChanges, hlt]
+      rw [hmc]
+      simp only [applyMod]
+      rw [List.take_of_length_le (by rw [hlen]; omega), hdec, hsame]; rfl
+  | extend e =>
+    by_cases he : e = 0
+    · subst he
+      simp [applyMod, modChanges, hdec, hsame]
+    · have hmc : modChanges (pt.length + nonceSize + 16) (.extend e) = true := by
+        simp [modChanges, he]
+      rw [hmc, if_pos rfl]
+      simp only [applyMod]
+      rw [hct, List.append_assoc, decrypt_append symAEAD k _ _ hn]
+      show verdictChar pt (symUnseal k nonce (symSeal k nonce pt ++ List.replicate e (.byte 0))) = 'r'
+      rw [sym_box_extend k nonce pt e he]; rfl
+
 /-- `holds_model_partial`: for every group order, scalars, plaintext and 24-byte nonce the monitor's
     clauses are met by the model's run — key agreement, reference key, both decrypt directions,
     ciphertext length, all four key-matching answers **and the outsider's verdict** (accepted iff
@@ -162,8 +352,8 @@ theorem sym_wrong_key (k k' : Nat) (n m : Bytes) (h : k' ≠ k) :
     ciphertext is rejected by the symbolic instance) are not proved in general — that needs the
     digests to separate every single-cell change, which is what A-aead assumes of the real box;
     those verdicts are exercised by the differential run (every byte of short ciphertexts). -/
-theorem holds_model_partial (N : Nat) (cs : Case) (hn : cs.nonce.length = nonceSize) :
-    let r := runCase (zmodGroup N) (K := Nat) id symAEAD cs []
+theorem holds_model_partial (N : Nat) (cs : Case) (mods : List Mod) (hn : cs.nonce.length = nonceSize) :
+    let r := runCase (zmodGroup N) (K := Nat) id symAEAD cs mods
     r.agree = true ∧ r.ref = true ∧ r.dec = some cs.pt ∧ r.back = some cs.pt ∧
     r.ctLen = cs.pt.length + nonceSize + 16 ∧
     r.matchC = decide (cs.c % N = cs.a % N) ∧ r.matchA = true ∧
@@ -204,12 +394,53 @@ theorem holds_model_partial (N : Nat) (cs : Case) (hn : cs.nonce.length = nonceS
     · rw [decrypt_encrypt_other symAEAD _ _ _ _ hn, sym_wrong_key _ _ _ _ hx, if_neg hx]
       rfl
 
+
+private theorem zip_map_all (mods : List Mod) (f : Mod → Char) (P : Mod → Char → Bool)
+    (h : ∀ m ∈ mods, P m (f m) = true) :
+    ((mods.zip (mods.map f)).all fun x => P x.1 x.2) = true := by
+  induction mods with
+  | nil => rfl
+  | cons m ms ih =>
+    simp only [List.map_cons, List.zip_cons_cons, List.all_cons, Bool.and_eq_true]
+    exact ⟨h m (by simp), ih (fun x hx => h x (by simp [hx]))⟩
+
+/-- **`holds_model`**: the monitor accepts the model's observation of every case the driver can be
+    given — every group order, all three scalars, every all-byte plaintext and 24-byte nonce, every
+    list of modifications (xor positions inside the ciphertext, as the op-line parser guarantees). -/
+theorem holds_model (N : Nat) (cs : Case) (mods : List Mod) (hn : cs.nonce.length = nonceSize)
+    (hbn : ∀ c ∈ cs.nonce, c.isByte = true) (hbp : ∀ c ∈ cs.pt, c.isByte = true)
+    (hok : ∀ pos mask, Mod.xor pos mask ∈ mods → pos < cs.pt.length + nonceSize + 16) :
+    holds N cs mods ((runCase (zmodGroup N) (K := Nat) id symAEAD cs mods).toImpl cs.pt) = true := by
+  obtain ⟨h1, h2, h3, h4, h5, h6, h7, h8, h9, h10⟩ := holds_model_partial N cs mods hn
+  have hsym := ecdh_symmetric (zmodGroup N) (K := Nat) id cs.a cs.b
+  have hmods : (runCase (zmodGroup N) (K := Nat) id symAEAD cs mods).mods
+      = mods.map fun m => verdictChar cs.pt (decrypt symAEAD (ecdh (zmodGroup N) id cs.b (pubOf (zmodGroup N) cs.a))
+          (applyMod (encrypt symAEAD (ecdh (zmodGroup N) id cs.b (pubOf (zmodGroup N) cs.a)) cs.nonce cs.pt) m)) := by
+    show (mods.map fun m => verdictChar cs.pt (decrypt symAEAD _ (applyMod
+      (encrypt symAEAD (ecdh (zmodGroup N) id cs.a (pubOf (zmodGroup N) cs.b)) cs.nonce cs.pt) m))) = _
+    rw [hsym]
+  simp only [holds, Result.toImpl, Bool.and_eq_true]
+  refine ⟨⟨⟨⟨⟨⟨⟨⟨⟨⟨⟨h1, h2⟩, ?_⟩, ?_⟩, ?_⟩, ?_⟩, ?_⟩, ?_⟩, h7⟩, ?_⟩, ?_⟩, ?_⟩
+  · rw [h3]; simp
+  · rw [h5]; simp
+  · rw [h10]; by_cases hx : sharedX N cs.c cs.a = sharedX N cs.b cs.a <;> simp [hx]
+  · rw [hmods]; simp
+  · rw [hmods]
+    apply zip_map_all mods _ (fun m v => if modChanges (cs.pt.length + nonceSize + 16) m then v == 'r' else v == 'o')
+    intro m hm
+    rw [mod_verdict _ cs.nonce cs.pt hn hbn hbp m (fun pos mask he => hok pos mask (he ▸ hm))]
+    split <;> rfl
+  · rw [h6]; simp
+  · rw [h4]; simp
+  · rw [h8]; simp
+  · rw [h9]; simp
+
 /-! Non-vacuity on a small group (order 11) with the symbolic box. -/
-example : (runCase (zmodGroup 11) (K := Nat) id symAEAD ⟨3, 5, 6, [7, 8], List.replicate 24 1⟩
+example : (runCase (zmodGroup 11) (K := Nat) id symAEAD ⟨3, 5, 6, [.byte 7, .byte 8], List.replicate 24 (.byte 1)⟩
     [.xor 41 1, .xor 0 1, .trunc 10, .xor 3 0]).mods = ['r', 'r', 'r', 'o'] := by decide
-example : (runCase (zmodGroup 11) (K := Nat) id symAEAD ⟨3, 5, 6, [7, 8], List.replicate 24 1⟩ []).wrong
+example : (runCase (zmodGroup 11) (K := Nat) id symAEAD ⟨3, 5, 6, [.byte 7, .byte 8], List.replicate 24 (.byte 1)⟩ []).wrong
     = 'o' := by decide   -- 6 = 11 - 5: same shared x
-example : (runCase (zmodGroup 11) (K := Nat) id symAEAD ⟨3, 5, 7, [7, 8], List.replicate 24 1⟩ []).wrong
+example : (runCase (zmodGroup 11) (K := Nat) id symAEAD ⟨3, 5, 7, [.byte 7, .byte 8], List.replicate 24 (.byte 1)⟩ []).wrong
     = 'r' := by decide
 
 end KeepVerif.C41
